@@ -1263,11 +1263,110 @@ async fn c18_repair_round(seed: u64, r: u64, pre_yield: bool) -> CaseOut {
     out
 }
 
+/// A REAL node start-up (DatacakeNodeBuilder + EventuallyConsistentStoreExtension, i.e. the library's own
+/// `EventuallyConsistentStore::create`, loopback TCP/UDP, real time) on storage that already holds
+/// keyspaces and is slow to list them, while a peer keeps sending the first incoming write for one of the
+/// persisted keyspace names from the moment the node's RPC server is up. Whenever that write is
+/// acknowledged, it must be in the state the node serves to peers once the start-up has finished.
+async fn c18_startup_case(seed: u64, i: u64) -> CaseOut {
+    use datacake_eventual_consistency::EventuallyConsistentStoreExtension;
+    use datacake_node::{ConnectionConfig, DCAwareSelector, DatacakeNodeBuilder};
+    let mut out = CaseOut::default();
+    let mut rng = rng_for(seed, 0xC18_57A7, i);
+    let inner = Arc::new(MemStore::default());
+    let ctl = Ctl::new(1);
+    let base = 70_000_000u64;
+    // what the previous incarnation left behind: two or three keyspaces with a few documents each
+    let names: Vec<String> = (0..rng.gen_range(2..=3)).map(|k| format!("persisted-{k}")).collect();
+    for (k, n) in names.iter().enumerate() {
+        for d in 0..rng.gen_range(1..5u64) {
+            let _ = inner.put(n, doc(d, ts(base + (k as u64) * 100 + d * 4, 0, 3))).await;
+        }
+    }
+    ctl.slow_read_ms.store(rng.gen_range(40..250), Ordering::SeqCst);
+    let store = HStore::new(inner.clone(), ctl.clone());
+    let addr = crate::rpc::free_tcp_addr();
+    let node = match DatacakeNodeBuilder::<DCAwareSelector>::new(1, ConnectionConfig::new(addr, addr, Vec::<String>::new())).connect().await {
+        Ok(n) => n,
+        Err(e) => {
+            out.inconclusive = Some(format!("cannot start a real node on loopback: {e}"));
+            return out;
+        },
+    };
+    // the peer: first incoming write for a persisted keyspace, retried until the service answers
+    let target = names[rng.gen_range(0..names.len())].clone();
+    let stamp = ts(base + 50_000, 0, 9);
+    // (the peer's write leaves at an arbitrary moment of the start-up)
+    let leaves_after = Duration::from_millis(rng.gen_range(0..500));
+    let peer = {
+        let target = target.clone();
+        tokio::spawn(async move {
+            tokio::time::sleep(leaves_after).await;
+            let mut c = ecv::ConsistencyClient::<HStore<MemStore>>::new(Clock::new(9), Channel::connect(addr));
+            let t0 = std::time::Instant::now();
+            let mut refusals = 0u32;
+            while t0.elapsed() < Duration::from_secs(20) {
+                match c.put(target.clone(), doc(777, stamp), 9, SocketAddr::from(([127, 0, 0, 1], 1))).await {
+                    Ok(()) => return (true, refusals),
+                    Err(_) => {
+                        refusals += 1;
+                        tokio::time::sleep(Duration::from_millis(3)).await;
+                    },
+                }
+            }
+            (false, refusals)
+        })
+    };
+    let started = node.add_extension(EventuallyConsistentStoreExtension::new(store)).await;
+    let store_ext = match started {
+        Ok(s) => s,
+        Err(e) => {
+            out.inconclusive = Some(format!("store extension did not start: {e}"));
+            return out;
+        },
+    };
+    let (acked, refusals) = peer.await.unwrap_or((false, 0));
+    if !acked {
+        out.inconclusive = Some("the peer's write was never acknowledged".into());
+        return out;
+    }
+    out.count("real_node_startups_with_an_incoming_first_write", 1);
+    out.count("refusals_before_the_service_answered", refusals as u64);
+    tokio::time::sleep(Duration::from_millis(50)).await;
+    let mut rc = ecv::ReplicationClient::<HStore<MemStore>>::new(Clock::new(10), Channel::connect(addr));
+    match rc.get_state(target.clone()).await {
+        Ok((_l, set)) => {
+            let listing = enumerate(&set);
+            if !listing.0.contains(&(777, stamp)) {
+                out.violate(
+                    "C18:acknowledged-operation-missing-from-the-keyspace-state:first-write-arrived-during-start-up",
+                    json!({"keyspace": target, "acknowledged_write": [777, ts_json(stamp)], "state_served_to_peers": listing_json(&listing), "persisted_keyspaces": names,
+                        "refusals_before_the_service_answered": refusals}),
+                );
+            }
+            // ... and what was persisted before the restart is there as well
+            if let Ok(store) = store_listing(inner.as_ref(), &target).await {
+                if store != listing {
+                    out.violate("C18:set-and-store-disagree-after-start-up", json!({"keyspace": target, "set": listing_json(&listing), "store": listing_json(&store)}));
+                }
+            }
+        },
+        Err(e) => out.inconclusive = Some(format!("get_state after start-up failed: {e:?}")),
+    }
+    out.nontrivial = Some(hash_of(&("startup", i)));
+    if !out.violations.is_empty() {
+        out.replay = Some(json!({"mode": "startup", "seed": seed, "index": i}));
+    }
+    drop(store_ext);
+    node.shutdown().await;
+    out
+}
+
 pub fn c18(args: &Args) {
     let mut report = Report::new(
         args,
         "E1-actor",
-        "k in 2..8 tasks concurrently make the first use of a fresh keyspace name on one real KeyspaceGroup through different entry points (get_or_create_keyspace + Set; ConsistencyService put / multi_put over the in-memory transport; ReplicationService GetState followed by a repair-sourced Set; first uses that are DELETES: consistency remove / multi_remove, the distributor's batch message with a 'removed' half only, Del through the group) and send one mutation each (distinct ids, distinct origins, stamps inside one window so every one applies). A later lookup's serialized set must contain every acknowledged operation and agree with storage. Runtimes: current-thread (the awaits inside add_state yield naturally; task order rotated) and multi-thread with 2/4/16 workers and random pre-yields. Second scenario: node B runs a repair from a peer A that already holds 1..40 keyspace names (the repair path creates them on B) while the first local uses of those same names (group, consistency put / multi_put) arrive at B; every acknowledged operation must be in the state a later lookup serializes, set == store. A creation counter (hook H6) observes how many states were created per name. Non-trivial = >= 2 states were created for the name (first uses overlapped); distinct = distinct (round, k, entry rotation, creations).",
+        "k in 2..8 tasks concurrently make the first use of a fresh keyspace name on one real KeyspaceGroup through different entry points (get_or_create_keyspace + Set; ConsistencyService put / multi_put over the in-memory transport; ReplicationService GetState followed by a repair-sourced Set; first uses that are DELETES: consistency remove / multi_remove, the distributor's batch message with a 'removed' half only, Del through the group) and send one mutation each (distinct ids, distinct origins, stamps inside one window so every one applies). A later lookup's serialized set must contain every acknowledged operation and agree with storage. Runtimes: current-thread (the awaits inside add_state yield naturally; task order rotated) and multi-thread with 2/4/16 workers and random pre-yields. Second scenario: node B runs a repair from a peer A that already holds 1..40 keyspace names (the repair path creates them on B) while the first local uses of those same names (group, consistency put / multi_put) arrive at B; every acknowledged operation must be in the state a later lookup serializes, set == store. Third scenario: REAL node start-ups (DatacakeNodeBuilder + store extension = the library's own create(), loopback sockets, real time) on storage that already holds keyspaces and lists them slowly, while a peer retries the first incoming write for a persisted name from the moment the RPC server is up: once acknowledged it must be in the state served to peers after the start-up. A creation counter (hook H6) observes how many states were created per name. Non-trivial = >= 2 states were created for the name (first uses overlapped); distinct = distinct (round, k, entry rotation, creations).",
     );
     let seed = args.seed;
     let rounds = args.pick(40_000, 1_000_000);
@@ -1296,6 +1395,36 @@ pub fn c18(args: &Args) {
         for o in outs {
             report.absorb(o);
         }
+    }
+    // real node start-ups (the library's own create(), loopback sockets, real time)
+    {
+        let n = args.pick(48, 800);
+        let outs = block_on_real(8, async move {
+            let mut hs = Vec::new();
+            for j in 0..n {
+                hs.push(tokio::spawn(c18_startup_case(seed, j)));
+                if hs.len() >= 8 {
+                    break;
+                }
+            }
+            let mut v = Vec::new();
+            let mut next = hs.len() as u64;
+            while !hs.is_empty() {
+                let h = hs.remove(0);
+                if let Ok(o) = h.await {
+                    v.push(o);
+                }
+                if next < n && t0.elapsed() < budget * 2 {
+                    hs.push(tokio::spawn(c18_startup_case(seed, next)));
+                    next += 1;
+                }
+            }
+            v
+        });
+        for o in outs {
+            report.absorb(o);
+        }
+        report.floor("real_node_startups_with_an_incoming_first_write", 10);
     }
     // multi-thread runtimes, one at a time
     let mut r = rounds;
@@ -1594,6 +1723,83 @@ pub fn c19_sizes(tier: Tier) -> Vec<usize> {
     v
 }
 
+/// A state fetched WHILE the keyspace is being written. A single writer applies documents one after
+/// the other over slow storage and notes the keyspace's change stamp after each; a peer keeps fetching.
+/// Each answer (change stamp L, state S) must be a state of some moment: every document whose change
+/// stamp is <= L is in S (the stamp is what the poller records as "synchronised up to").
+async fn c19_concurrent_case(seed: u64, i: u64) -> CaseOut {
+    let mut out = CaseOut::default();
+    let mut rng = rng_for(seed, 0xC19_C0C, i);
+    let ctl = Ctl::new(1);
+    let addr = scen_addr(49, i);
+    let node = match ActorNode::start(Arc::new(MemStore::default()), ctl.clone(), addr, false).await {
+        Ok(n) => n,
+        Err(e) => {
+            out.inconclusive = Some(e);
+            return out;
+        },
+    };
+    let ksn = "written-while-fetched";
+    let ks = node.group.get_or_create_keyspace(ksn).await;
+    ctl.slow_ms.store(*[0i64, 1, 3, 10].choose(&mut rng).unwrap(), Ordering::SeqCst);
+    let n_docs = rng.gen_range(5..40u64);
+    let base = 80_000_000u64;
+    let done = Arc::new(std::sync::atomic::AtomicBool::new(false));
+    let writer = {
+        let (ks, done) = (ks.clone(), done.clone());
+        let pauses: Vec<u64> = (0..n_docs).map(|_| rng.gen_range(0..4)).collect();
+        tokio::spawn(async move {
+            // (document id, its stamp, the keyspace's change stamp once the write was acknowledged)
+            let mut log: Vec<(Key, HLCTimestamp, HLCTimestamp)> = Vec::new();
+            for k in 0..n_docs {
+                let stamp = ts(base + k * 8, 0, 9);
+                if ks.send(ecv::Set { source: 0, doc: doc(k, stamp), ctx: None, _marker: PhantomData }).await.is_err() {
+                    break;
+                }
+                let changed = ks.send(ecv::LastUpdated).await;
+                log.push((k, stamp, changed));
+                if pauses[k as usize] > 0 {
+                    tokio::time::sleep(Duration::from_millis(pauses[k as usize])).await;
+                }
+            }
+            done.store(true, Ordering::SeqCst);
+            log
+        })
+    };
+    let mut rc = ecv::ReplicationClient::<HStore<MemStore>>::new(Clock::new(151), Channel::connect(addr));
+    let mut answers: Vec<(HLCTimestamp, Listing)> = Vec::new();
+    while !done.load(Ordering::SeqCst) && answers.len() < 400 {
+        match rc.get_state(ksn).await {
+            Ok((last_updated, set)) => answers.push((last_updated, enumerate(&set))),
+            Err(e) => {
+                out.violate("C19:get_state-failed-on-intact-reply", json!({"error": format!("{e:?}"), "while": "the keyspace was being written"}));
+                break;
+            },
+        }
+        tokio::time::sleep(Duration::from_millis(rng.gen_range(0..3))).await;
+    }
+    let log = writer.await.unwrap_or_default();
+    out.count("states_fetched_while_the_keyspace_was_written", answers.len() as u64);
+    out.nontrivial = Some(hash_of(&("concurrent", i, answers.len())));
+    'answers: for (n, (l, listing)) in answers.iter().enumerate() {
+        for (id, stamp, changed) in &log {
+            if changed <= l && !listing.0.contains(&(*id, *stamp)) {
+                out.violate(
+                    "C19:state-older-than-the-change-stamp-it-travels-with",
+                    json!({"answer_no": n, "change_stamp_of_the_answer": ts_json(*l), "missing_document": [id, ts_json(*stamp)], "keyspace_change_stamp_after_that_write": ts_json(*changed),
+                        "documents_in_the_answer": listing.0.len(), "documents_written_in_all": log.len()}),
+                );
+                break 'answers;
+            }
+        }
+    }
+    if !out.violations.is_empty() {
+        out.replay = Some(json!({"mode": "concurrent", "seed": seed, "index": i}));
+    }
+    node.stop();
+    out
+}
+
 pub fn c19(args: &Args) {
     let mut report = Report::new(
         args,
@@ -1602,6 +1808,11 @@ pub fn c19(args: &Args) {
     );
     if let Some(path) = &args.replay {
         let r = read_replay(path);
+        if r["mode"] == "concurrent" {
+            report.absorb(block_on_paused(c19_concurrent_case(r["seed"].as_u64().unwrap(), r["index"].as_u64().unwrap())));
+            report.finish(args);
+            return;
+        }
         let tcp = r["tcp"].as_bool().unwrap_or(false);
         let fut = c19_case(r["seed"].as_u64().unwrap(), r["index"].as_u64().unwrap(), r["entries"].as_u64().unwrap() as usize, tcp);
         let out = if tcp { block_on_real(2, fut) } else { block_on_paused(fut) };
@@ -1679,6 +1890,10 @@ pub fn c19(args: &Args) {
         report.run_inconclusive.extend(notes);
     }
     let _ = std::fs::remove_dir_all(&dir);
+    // states fetched while the keyspace is being written
+    let n_conc = args.pick(4_000, 200_000);
+    run_cases(&mut report, n_conc, args.threads, Duration::from_secs(args.pick(60, 900)), |i| block_on_paused(c19_concurrent_case(seed, i)));
+    report.floor("states_fetched_while_the_keyspace_was_written", 20_000);
     // sample over real TCP
     let tcp_sizes: Vec<usize> = vec![0, 1, 17, 300, 1024, 5000, 20_000];
     let outs = block_on_real(4, async move {
